@@ -571,96 +571,151 @@ def decCallFields (fuel : Nat) (kvs : List (String × Json)) : Except DecOpErr (
   | .ok (inst', args') => pure (p, inst', args')
   | .error _ => throw .noConcreteFunc
 
+/-! One decoder per serialised model (`<Model>.model_validate` + `deserialize()`), given the members
+    of the JSON object. -/
+
+def decModule (_fuel : Nat) (_kvs : List (String × Json)) : Except DecOpErr Op := pure .module
+
+def decFuncDefn (fuel : Nat) (kvs : List (String × Json)) : Except DecOpErr Op := do
+  let n ← liftDec (do Codec.asStr (← Codec.req "name" kvs))
+  let p ← liftDec (do decPolyField fuel (← Codec.req "signature" kvs))
+  -- [F05] `params=poly_func.params`
+  pure (.funcDefn n p.body.inp p.params (.some p.body.out))
+
+def decFuncDecl (fuel : Nat) (kvs : List (String × Json)) : Except DecOpErr Op := do
+  let n ← liftDec (do Codec.asStr (← Codec.req "name" kvs))
+  let p ← liftDec (do decPolyField fuel (← Codec.req "signature" kvs))
+  pure (.funcDecl n p)
+
+/-- `vdec`: the decoder of the `Value` union -/
+def decConst (vdec : Json → Except Codec.DecErr Value) (kvs : List (String × Json)) : Except DecOpErr Op := do
+  let v ← liftDec (do vdec (← Codec.req "v" kvs))
+  pure (.const v)
+
+def decDataflowBlock (fuel : Nat) (kvs : List (String × Json)) : Except DecOpErr Op := do
+  let i ← liftDec (optField "inputs" kvs [] (Codec.decRow fuel))
+  let oo ← liftDec (optField "other_outputs" kvs [] (Codec.decRow fuel))
+  let rows ← liftDec (do decRowsField fuel (← Codec.req "sum_rows" kvs))
+  let d ← liftDec (optField "extension_delta" kvs [] Codec.decStrs)
+  -- [F06] `extension_delta=self.extension_delta`
+  pure (.dataflowBlock i (.some (.general rows)) (.some oo) d)
+
+def decExitBlock (fuel : Nat) (kvs : List (String × Json)) : Except DecOpErr Op := do
+  let o ← liftDec (do Codec.decRow fuel (← Codec.req "cfg_outputs" kvs))
+  pure (.exitBlock (.some o))
+
+def decInput (fuel : Nat) (kvs : List (String × Json)) : Except DecOpErr Op := do
+  pure (.input (← liftDec (optField "types" kvs [] (Codec.decRow fuel))))
+
+def decOutput (fuel : Nat) (kvs : List (String × Json)) : Except DecOpErr Op := do
+  pure (.output (.some (← liftDec (optField "types" kvs [] (Codec.decRow fuel)))))
+
+def decCall (fuel : Nat) (kvs : List (String × Json)) : Except DecOpErr Op := do
+  let (p, inst, args) ← decCallFields fuel kvs
+  pure (.call p inst args)
+
+def decCallIndirect (fuel : Nat) (kvs : List (String × Json)) : Except DecOpErr Op := do
+  let s ← liftDec (optField "signature" kvs Sig.empty (decSigField fuel))
+  pure (.callIndirect (.some s))
+
+def decLoadConstant (fuel : Nat) (kvs : List (String × Json)) : Except DecOpErr Op := do
+  let t ← liftDec (do Codec.decTy fuel (← Codec.req "datatype" kvs))
+  pure (.loadConst (.some t))
+
+def decLoadFunction (fuel : Nat) (kvs : List (String × Json)) : Except DecOpErr Op := do
+  let (p, inst, args) ← decCallFields fuel kvs
+  pure (.loadFunc p inst args)
+
+def decDFG (fuel : Nat) (kvs : List (String × Json)) : Except DecOpErr Op := do
+  let s ← liftDec (optField "signature" kvs Sig.empty (decSigField fuel))
+  pure (.dfg s.inp (.some s.out) s.reqs)
+
+def decConditional (fuel : Nat) (kvs : List (String × Json)) : Except DecOpErr Op := do
+  let oi ← liftDec (optField "other_inputs" kvs [] (Codec.decRow fuel))
+  let o ← liftDec (optField "outputs" kvs [] (Codec.decRow fuel))
+  let rows ← liftDec (optField "sum_rows" kvs [] (decRowsField fuel))
+  let _ ← liftDec (optField "extension_delta" kvs [] Codec.decStrs)   -- validated, then dropped
+  pure (.conditional (.general rows) oi (.some o))
+
+def decCase (fuel : Nat) (kvs : List (String × Json)) : Except DecOpErr Op := do
+  let s ← liftDec (optField "signature" kvs Sig.empty (decSigField fuel))
+  pure (.case s.inp (.some s.out))
+
+def decTailLoop (fuel : Nat) (kvs : List (String × Json)) : Except DecOpErr Op := do
+  let ji ← liftDec (optField "just_inputs" kvs [] (Codec.decRow fuel))
+  let jo ← liftDec (optField "just_outputs" kvs [] (Codec.decRow fuel))
+  let rest ← liftDec (optField "rest" kvs [] (Codec.decRow fuel))
+  let d ← liftDec (optField "extension_delta" kvs [] Codec.decStrs)
+  pure (.tailLoop ji rest (.some jo) d)
+
+def decCFG (fuel : Nat) (kvs : List (String × Json)) : Except DecOpErr Op := do
+  let s ← liftDec (optField "signature" kvs Sig.empty (decSigField fuel))
+  pure (.cfg s.inp (.some s.out))
+
+def decExtensionOp (fuel : Nat) (kvs : List (String × Json)) : Except DecOpErr Op := do
+  let e ← liftDec (do Codec.asStr (← Codec.req "extension" kvs))
+  let n ← liftDec (do Codec.asStr (← Codec.req "name" kvs))
+  let s ← liftDec (optField "signature" kvs Sig.empty (decSigField fuel))
+  let d ← liftDec (optField "description" kvs "" Codec.asStr)
+  let a ← liftDec (optField "args" kvs [] (decArgsField fuel))
+  -- [F07] `description=self.description`
+  pure (.custom n s d e a)
+
+def decTag (fuel : Nat) (kvs : List (String × Json)) : Except DecOpErr Op := do
+  let t ← liftDec (do Codec.asInt (← Codec.req "tag" kvs))
+  let rows ← liftDec (do decRowsField fuel (← Codec.req "variants" kvs))
+  pure (.tag t (.general rows))
+
+def decAliasDecl (_fuel : Nat) (kvs : List (String × Json)) : Except DecOpErr Op := do
+  let n ← liftDec (do Codec.asStr (← Codec.req "name" kvs))
+  let b ← liftDec (do Codec.decBound (← Codec.req "bound" kvs))
+  pure (.aliasDecl n b)
+
+def decAliasDefn (fuel : Nat) (kvs : List (String × Json)) : Except DecOpErr Op := do
+  let n ← liftDec (do Codec.asStr (← Codec.req "name" kvs))
+  let t ← liftDec (do Codec.decTy fuel (← Codec.req "definition" kvs))
+  pure (.aliasDefn n t)
+
+/-- The discriminated union `OpType` (discriminator `op`). -/
+def decKind (vdec : Json → Except Codec.DecErr Value) (fuel : Nat) (tag : String) (kvs : List (String × Json)) :
+    Except DecOpErr Op :=
+  if tag = "Module" then decModule fuel kvs
+  else if tag = "FuncDefn" then decFuncDefn fuel kvs
+  else if tag = "FuncDecl" then decFuncDecl fuel kvs
+  else if tag = "Const" then decConst vdec kvs
+  else if tag = "DataflowBlock" then decDataflowBlock fuel kvs
+  else if tag = "ExitBlock" then decExitBlock fuel kvs
+  else if tag = "Input" then decInput fuel kvs
+  else if tag = "Output" then decOutput fuel kvs
+  else if tag = "Call" then decCall fuel kvs
+  else if tag = "CallIndirect" then decCallIndirect fuel kvs
+  else if tag = "LoadConstant" then decLoadConstant fuel kvs
+  else if tag = "LoadFunction" then decLoadFunction fuel kvs
+  else if tag = "DFG" then decDFG fuel kvs
+  else if tag = "Conditional" then decConditional fuel kvs
+  else if tag = "Case" then decCase fuel kvs
+  else if tag = "TailLoop" then decTailLoop fuel kvs
+  else if tag = "CFG" then decCFG fuel kvs
+  else if tag = "Extension" then decExtensionOp fuel kvs
+  else if tag = "Tag" then decTag fuel kvs
+  else if tag = "AliasDecl" then decAliasDecl fuel kvs
+  else if tag = "AliasDefn" then decAliasDefn fuel kvs
+  else .error .validation
+
+/-- `OpType` validation (object, discriminator `op`, required `parent`, the model's fields) followed
+    by `deserialize()`, given the value decoder. -/
+def decWith (vdec : Json → Except Codec.DecErr Value) (fuel : Nat) (j : Json) : Except DecOpErr (Op × Int) := do
+  let kvs ← liftDec (Codec.asObj j)
+  let tag ← liftDec (do Codec.asStr (← Codec.req "op" kvs))
+  let parent ← liftDec (do Codec.asInt (← Codec.req "parent" kvs))
+  let op ← decKind vdec fuel tag kvs
+  pure (op, parent)
+
 mutual
-  /-- `OpType` validation (discriminator `op`, required fields, defaults, unknown fields ignored)
-      followed by `deserialize()`; returns the operation and the `parent` field. -/
+  /-- Decoding of one serialised operation; returns the operation and the `parent` field. -/
   def decOp : Nat → Json → Except DecOpErr (Op × Int)
     | 0, _ => .error .fuel
-    | fuel + 1, j => do
-      let kvs ← liftDec (Codec.asObj j)
-      let tag ← liftDec (do Codec.asStr (← Codec.req "op" kvs))
-      let parent ← liftDec (do Codec.asInt (← Codec.req "parent" kvs))
-      let op ← match tag with
-        | "Module" => pure Op.module
-        | "FuncDefn" => do
-          let n ← liftDec (do Codec.asStr (← Codec.req "name" kvs))
-          let p ← liftDec (do decPolyField fuel (← Codec.req "signature" kvs))
-          -- [F05] `params=poly_func.params`
-          pure (Op.funcDefn n p.body.inp p.params (.some p.body.out))
-        | "FuncDecl" => do
-          let n ← liftDec (do Codec.asStr (← Codec.req "name" kvs))
-          let p ← liftDec (do decPolyField fuel (← Codec.req "signature" kvs))
-          pure (Op.funcDecl n p)
-        | "Const" => do
-          let v ← liftDec (do Codec.decVal (fnSig fuel) fuel (← Codec.req "v" kvs))
-          pure (Op.const v)
-        | "DataflowBlock" => do
-          let i ← liftDec (optField "inputs" kvs [] (Codec.decRow fuel))
-          let oo ← liftDec (optField "other_outputs" kvs [] (Codec.decRow fuel))
-          let rows ← liftDec (do decRowsField fuel (← Codec.req "sum_rows" kvs))
-          let d ← liftDec (optField "extension_delta" kvs [] Codec.decStrs)
-          -- [F06] `extension_delta=self.extension_delta`
-          pure (Op.dataflowBlock i (.some (.general rows)) (.some oo) d)
-        | "ExitBlock" => do
-          let o ← liftDec (do Codec.decRow fuel (← Codec.req "cfg_outputs" kvs))
-          pure (Op.exitBlock (.some o))
-        | "Input" => do pure (Op.input (← liftDec (optField "types" kvs [] (Codec.decRow fuel))))
-        | "Output" => do pure (Op.output (.some (← liftDec (optField "types" kvs [] (Codec.decRow fuel)))))
-        | "Call" => do
-          let (p, inst, args) ← decCallFields fuel kvs
-          pure (Op.call p inst args)
-        | "CallIndirect" => do
-          let s ← liftDec (optField "signature" kvs Sig.empty (decSigField fuel))
-          pure (Op.callIndirect (.some s))
-        | "LoadConstant" => do
-          let t ← liftDec (do Codec.decTy fuel (← Codec.req "datatype" kvs))
-          pure (Op.loadConst (.some t))
-        | "LoadFunction" => do
-          let (p, inst, args) ← decCallFields fuel kvs
-          pure (Op.loadFunc p inst args)
-        | "DFG" => do
-          let s ← liftDec (optField "signature" kvs Sig.empty (decSigField fuel))
-          pure (Op.dfg s.inp (.some s.out) s.reqs)
-        | "Conditional" => do
-          let oi ← liftDec (optField "other_inputs" kvs [] (Codec.decRow fuel))
-          let o ← liftDec (optField "outputs" kvs [] (Codec.decRow fuel))
-          let rows ← liftDec (optField "sum_rows" kvs [] (decRowsField fuel))
-          let _ ← liftDec (optField "extension_delta" kvs [] Codec.decStrs)   -- validated, then dropped
-          pure (Op.conditional (.general rows) oi (.some o))
-        | "Case" => do
-          let s ← liftDec (optField "signature" kvs Sig.empty (decSigField fuel))
-          pure (Op.case s.inp (.some s.out))
-        | "TailLoop" => do
-          let ji ← liftDec (optField "just_inputs" kvs [] (Codec.decRow fuel))
-          let jo ← liftDec (optField "just_outputs" kvs [] (Codec.decRow fuel))
-          let rest ← liftDec (optField "rest" kvs [] (Codec.decRow fuel))
-          let d ← liftDec (optField "extension_delta" kvs [] Codec.decStrs)
-          pure (Op.tailLoop ji rest (.some jo) d)
-        | "CFG" => do
-          let s ← liftDec (optField "signature" kvs Sig.empty (decSigField fuel))
-          pure (Op.cfg s.inp (.some s.out))
-        | "Extension" => do
-          let e ← liftDec (do Codec.asStr (← Codec.req "extension" kvs))
-          let n ← liftDec (do Codec.asStr (← Codec.req "name" kvs))
-          let s ← liftDec (optField "signature" kvs Sig.empty (decSigField fuel))
-          let d ← liftDec (optField "description" kvs "" Codec.asStr)
-          let a ← liftDec (optField "args" kvs [] (decArgsField fuel))
-          -- [F07] `description=self.description`
-          pure (Op.custom n s d e a)
-        | "Tag" => do
-          let t ← liftDec (do Codec.asInt (← Codec.req "tag" kvs))
-          let rows ← liftDec (do decRowsField fuel (← Codec.req "variants" kvs))
-          pure (Op.tag t (.general rows))
-        | "AliasDecl" => do
-          let n ← liftDec (do Codec.asStr (← Codec.req "name" kvs))
-          let b ← liftDec (do Codec.decBound (← Codec.req "bound" kvs))
-          pure (Op.aliasDecl n b)
-        | "AliasDefn" => do
-          let n ← liftDec (do Codec.asStr (← Codec.req "name" kvs))
-          let t ← liftDec (do Codec.decTy fuel (← Codec.req "definition" kvs))
-          pure (Op.aliasDefn n t)
-        | _ => throw DecOpErr.validation
-      pure (op, parent)
+    | fuel + 1, j => decWith (Codec.decVal (fnSig fuel) fuel) fuel j
   /-- `fnSig` for `Codec.decVal`: the inner signature of the root operation (`nodes[0]`) of a nested
       serialised HUGR document.  Any failure is a decoding failure of the enclosing value. -/
   def fnSig : Nat → Json → Except Codec.DecErr (List Ty × List Ty × List String)
